@@ -25,18 +25,18 @@ SPEC = {
         "quick": {"histories": 12, "roots_checked": 4000, "witnesses_verified": 100, "cross_pool_alignment_checks": 600,
                   "retained_boundaries_checked": 200, "rewinds": 4, "distinct_nontrivial": 10,
                   "histories_starting_at_shard_boundary": 2, "histories_with_activation_inside_chain": 2, "histories_with_late_starting_pool": 2, "subtree_roots_put": 2,
-                  "micro_histories_activation_inside_chain": 6, "micro_histories_late_pool_one_batch": 6,
-                  "batches_straddling_activation_with_retention": 6, "rewinds_to_empty_tree_of_a_pool": 8},
+                  "micro_histories_activation_inside_chain": 4, "micro_histories_late_pool_one_batch": 4, "micro_histories_deep_batch_empty_grid_blocks": 4,
+                  "batches_straddling_activation_with_retention": 4, "rewinds_to_empty_tree_of_a_pool": 5},
         "thorough": {"histories": 500, "roots_checked": 200000, "witnesses_verified": 8000, "cross_pool_alignment_checks": 50000,
                      "retained_boundaries_checked": 8000, "retained_boundaries_on_blocks_without_commitments": 2000, "rewinds": 120, "distinct_nontrivial": 150,
                      "histories_starting_at_shard_boundary": 80, "histories_with_activation_inside_chain": 80, "histories_with_late_starting_pool": 80, "subtree_roots_put": 100, "subtree_chunks_beyond_first_in_batch": 50, "deep_rewinds_attempted": 5,
-                     "micro_histories_activation_inside_chain": 100, "micro_histories_late_pool_one_batch": 100,
-                     "batches_straddling_activation_with_retention": 100, "rewinds_to_empty_tree_of_a_pool": 120},
+                     "micro_histories_activation_inside_chain": 60, "micro_histories_late_pool_one_batch": 60, "micro_histories_deep_batch_empty_grid_blocks": 60,
+                     "batches_straddling_activation_with_retention": 60, "rewinds_to_empty_tree_of_a_pool": 80},
     },
     "manifest": {
         "technique": "history + reference frontier: roots of retained checkpoints and wallet-produced witnesses compared with an independently rolled frontier after every operation of generated scan/rewind histories; structural invariant hooks on checkpoint id sets",
         "text": "Tens of thousands of checkpoint roots and hundreds of witnesses per run, over out-of-order/duplicated scans, rewinds and anchor-retention grids, each compared with the true chain tree; cross-pool checkpoint alignment and retained-boundary presence checked after every operation. Held on everything executed except the listed known finding.",
-        "note": "Sampled histories. A quarter of the histories start just below a 2^16 subtree boundary (random prior frontier + prior subtree roots) so that shards complete and true subtree roots are inserted; a quarter activate NU6.3 inside the scanned chain; some let a pool receive its first commitment late and rewind below it; deep rewinds (100-300 blocks) are attempted now and then. Every shard first runs short directed histories: NU6.3 activating strictly inside a scan batch under a dense retention grid over mostly empty blocks, and a late-starting pool scanned in one batch, rewound to its empty tree and continued on a different chain. Known finding F1 (dependency shardtree 0.7.0 keeps stale annotations on truncation) is recognised by its trigger predicate and reported as KNOWN-FINDING.",
+        "note": "Sampled histories. A quarter of the histories start just below a 2^16 subtree boundary (random prior frontier + prior subtree roots) so that shards complete and true subtree roots are inserted; a quarter activate NU6.3 inside the scanned chain; some let a pool receive its first commitment late and rewind below it; deep rewinds (100-300 blocks) are attempted now and then. Every shard first runs short directed histories: NU6.3 activating strictly inside a scan batch under a dense retention grid over mostly empty blocks, a late-starting pool scanned in one batch, rewound to its empty tree and continued on a different chain, and one batch deeper than the pruning window in which exactly the retention-grid blocks carry no commitments. After a complete scan a retained checkpoint whose root still cannot be computed is a violation. Known finding F1 (dependency shardtree 0.7.0 keeps stale annotations on truncation) is recognised by its trigger predicate and reported as KNOWN-FINDING.",
     },
 }
 
